@@ -69,6 +69,17 @@ def cases():
         c.append(("Max(-2, x, 3, y)[%s]" % nm, ("mgr", "Max"), [("shape", mk(-2)), sort, ("shape", mk(3)), sort], [], lambda v, W: max(v)))
         c.append(("GE(x*-2*y, x-y)[%s]" % nm, ("mgr", "GE"), [("shape", terms[0]), ("shape", terms[7])], [], lambda v, W: v[0] >= v[1]))
         c.append(("NotEquals(x*-1, 0-x)[%s]" % nm, ("mgr", "NotEquals"), [("shape", terms[3]), ("shape", terms[9])], [], lambda v, W: v[0] != v[1]))
+    # the public wrappers of pysmt.shortcuts with the operands handed over as var-args, list, tuple and one-shot iterator
+    nary = [("AtMostOne", B, lambda v, W: sum(map(bool, v)) <= 1), ("ExactlyOne", B, lambda v, W: sum(map(bool, v)) == 1),
+            ("And", B, lambda v, W: all(v)), ("Or", B, lambda v, W: any(v)), ("AllDifferent", INT, lambda v, W: len(set(v)) == len(v)),
+            ("Plus", INT, lambda v, W: sum(v)), ("Times", INT, lambda v, W: (v[0] * v[1] * (v[2] if len(v) > 2 else 1))),
+            ("Min", INT, lambda v, W: min(v)), ("Max", INT, lambda v, W: max(v))]
+    for fname, so_, ref_ in nary:
+        for k in (2, 3):
+            for fm in ("varargs", "list", "tuple", "iter"):
+                c.append(("shortcuts.%s/%d as %s" % (fname, k, fm), ("fn", "pysmt.shortcuts", fname), [so_] * k,
+                          [] if fm == "varargs" else ["form:" + fm], ref_))
+            c.append(("mgr.%s/%d as iter" % (fname, k), ("mgr", fname), [so_] * k, ["form:iter"], ref_))
     c.append(("Xor", ("mgr", "Xor"), [B, B], [], lambda v, W: v[0] != v[1]))
     c.append(("NotEquals[Bool via EqualsOrIff]", ("mgr", "EqualsOrIff"), [B, B], [], lambda v, W: v[0] == v[1]))
     c.append(("EqualsOrIff[Int]", ("mgr", "EqualsOrIff"), [INT, INT], [], lambda v, W: v[0] == v[1]))
@@ -163,13 +174,19 @@ def _job(idx):
                 _, i_, j_ = e.split(":")
                 ops[int(j_)] = ops[int(i_)]
         pre = [e[4:] == "True" for e in extra if isinstance(e, str) and e.startswith("pre:")]
-        post_args = [e for e in extra if not (isinstance(e, str) and (e.startswith("pre:") or e.startswith("same:")))]
+        form = [e[5:] for e in extra if isinstance(e, str) and e.startswith("form:")]
+        post_args = [e for e in extra if not (isinstance(e, str) and (e.startswith("pre:") or e.startswith("same:") or e.startswith("form:")))]
+        call_ops = ops
+        if form:
+            # how the operands are handed over: one list / tuple / one-shot iterator (as a generator expression is)
+            from ..absint import ListIter
+            call_ops = [{"list": list, "tuple": tuple, "iter": ListIter}[form[0]](ops)]
         if call[0] == "mgr":
-            r = it.call(it.getattr(w.mgr, call[1]), pre + ops + post_args)
+            r = it.call(it.getattr(w.mgr, call[1]), pre + call_ops + post_args)
         elif call[0] == "meth":
             r = it.call(it.getattr(ops[0], call[1]), ops[1:] + post_args)
         else:
-            r = it.call(it.module_global(w.repo.modules[call[1]], call[2]), ops + post_args)
+            r = it.call(it.module_global(w.repo.modules[call[1]], call[2]), call_ops + post_args)
         return (w, ops, r)
     try:
         paths = Explorer(max_paths=100).run(one)
